@@ -102,7 +102,8 @@ fn wakes() -> RunResult {
         let (errs, events, done, deliveries) = (errs.clone(), events.clone(), done.clone(), deliveries.clone());
         move || {
             let mut pb = ProactorBuilder::new();
-            pb.capacity(capacity).driver_type(compio_driver::DriverType::IoUring);
+            pb.capacity(capacity);
+            draw_driver(&mut pb);
             let rt = compio_runtime::Runtime::builder().with_proactor(pb).sync_queue_size(sync_queue).build().expect("runtime");
             // the waiting tasks
             let handles: Vec<compio_runtime::JoinHandle<()>> = (0..tasks)
